@@ -9,6 +9,7 @@ import NakenVerif.Sim.I8008Proofs
 import NakenVerif.Sim.Lc3Proofs
 import NakenVerif.Sim.M6502Proofs
 import NakenVerif.Sim.StubsImpl
+import NakenVerif.Sim.C1802Proofs
 
 namespace NakenVerif.C15
 open NakenVerif.Sim
@@ -211,6 +212,32 @@ example : (match M6502.step (fun a => if a = 0xffff then 0x20 else 0) m6502Edge 
     some (0, 0xfe, [(0x100, 0x00), (0x1ff, 0x01)]) := by decide +kernel
 example : (match M6502.step (fun a => if a = 0xffff then 0xa9 else 0) m6502Edge with
     | .ok (o, _, _) => some (o.state.pc, o.state.a) | .fault _ => none) = some (0x10001, 0) := by decide +kernel
+
+/-! ### 1802 -/
+
+/-- **1802: one step is total, fault-free, keeps `reg_p < 16`, `reg_x < 16` and writes only below 2^16.**  For every such state —
+    every value of D, T, the 16 registers, the flags (which are bytes: DF can be 0x80), the counter, `flag_etq`, `break_io` — and every
+    memory content: the step returns 0 or -1, no `reg_r[]` access (index REG_N, the extended instruction's N, REG_X, REG_P or 2) leaves
+    the 16 registers, the two ranges hold again (RET / DIS / MARK / SEP / SEX assign nibbles), and every `WRITE_RAM` address is a
+    16-bit register value. -/
+theorem c1802_step_total_no_fault (mem : Mem) (s : C1802.State) (h : C1802.Inv s) :
+    ∃ o m' b, C1802.step mem s = .ok (o, m', b) ∧ C1802.Inv o.state ∧ (o.ret = 0 ∨ o.ret = -1) ∧
+      ∀ w ∈ o.writes, w.1 < 0x10000 :=
+  C1802.step_ok mem s h
+
+theorem c1802_invariant_established (s : C1802.State) (name : String) (v : BitVec 32) :
+    C1802.Inv (C1802.reset s) ∧ (C1802.Inv s → C1802.Inv (C1802.setReg s name v)) :=
+  ⟨C1802.reset_inv s, C1802.setReg_inv s name v⟩
+
+theorem c1802_run_no_fault (n : Nat) (m : Mem) (s : C1802.State) (h : C1802.Inv s) :
+    ∃ r, C1802.runN m n s = .ok r ∧ C1802.Inv r.1 :=
+  C1802.runN_ok n m s h
+
+/-- `Simulate1802::run` does not clear the static `stop_running`: an explicit input (when set, nothing is executed).  `flag_etq`,
+    the data member no constructor initialised before fix C15-14, is an ordinary field of the model's state. -/
+theorem c1802_stop_running_is_an_input (mem : Mem) (s : C1802.State) (h : s.stopRunning = true) :
+    C1802.step mem s = .ok ({ ret := 0, state := s, writes := [] }, mem, none) :=
+  C1802.step_stopped mem s h
 
 /-! ### tms9900 and ebpf: simulators that execute no instruction -/
 
